@@ -40,6 +40,7 @@ func TestSim(t *testing.T) {
 	simcore.Main(t, "C05", []simcore.Scenario{
 		{Name: "measure-concurrent", Weight: 3, Run: func(e *simcore.Env, tp *simcore.Tape) { run(e, tp, newMeasureEng) }},
 		{Name: "stream-concurrent", Weight: 2, Run: func(e *simcore.Env, tp *simcore.Tape) { run(e, tp, newStreamEng) }},
+		{Name: "sidx-concurrent", Weight: 1, Run: runSidx},
 	})
 }
 
